@@ -160,7 +160,9 @@ class CobaRandom:
         else:
             tot = sum(weights)
             if tot == 0: raise ValueError("The sum of weights cannot be zero.")
-            return next(compress(seq, map((next(self._randu)*tot).__le__, accumulate(weights))))
+            r = next(self._randu)*tot
+            if r == 0: return next(compress(seq, weights)) #the first item with a non-zero weight
+            return next(compress(seq, map(r.__le__, accumulate(weights))))
 
     def choicew(self, seq: Sequence[Any], weights:Sequence[float] = None) -> Tuple[Any,float]:
         """Choose a random item from the given sequence.
@@ -229,7 +231,7 @@ class CobaRandom:
         sin  = math.sin
 
         while True:
-            R = sqrt(-2*log(next(self._randu)))
+            R = sqrt(-2*log(next(self._randu) or 2**-30)) #the uniform can be exactly 0
             S = 2*pi*next(self._randu)
             yield R*cos(S)
             yield R*sin(S)
